@@ -147,6 +147,41 @@ def r3(ctx):
     else: rep.ok('C06.R3', "parse.y:%s re '$': link_machines(re, link_machines(mkstate(%d), mkstate('\\n'))), headcnt=0 trailcnt=1 rulelen=1 trlcontxt=1" % (c.line, EPS))
     return 1
 
+# ---------------------------------------------------------------- R6 (generator)
+
+def r6(ctx):
+    """A rule that follows a `|` action is forced to variable trailing context (the yytext adjustment must then happen before the
+    action switch, not inside the shared action).  The consumers decide "variable" as varlength && headcnt == 0, so wherever a
+    grammar action sets varlength because previous_continued_action is set, headcnt must be 0 when the action ends: a store
+    headcnt = 0 in the same action either dominates the forcing store or lies on every path from it to the end of the action."""
+    rep = ctx.rep; P = ctx.flex
+    f = P.fn('yyparse'); cs = Cases(P, f); cfg = cs.cfg
+    n = 0
+    for x in f.ins:
+        if x.op != 'store' or x.ops[1] != ('glob', 'varlength') or x.ops[0][0] != 'int' or x.ops[0][1] == 0: continue
+        label = cs.label_of(x.blk)
+        if label is None: continue
+        forced = False
+        for br, t in cs.deps(label, x.blk):
+            con = S.edge_constraint(f, br, t.name)
+            if con and con[0] == 'ne' and con[2] == ('int', 0) and esig(f, S.strip_ext(f, con[1])) == ('ld', ('g', 'previous_continued_action')): forced = True
+        if not forced: continue
+        n += 1
+        key = 'C06.R6:parse.y:continued-action:headcnt'
+        zeros = [y for y in cs.ins(label) if y.op == 'store' and y.ops[1] == ('glob', 'headcnt') and y.ops[0] == ('int', 0)]
+        others = [y for y in cs.ins(label) if y.op == 'store' and y.ops[1] == ('glob', 'headcnt') and y.ops[0] != ('int', 0)]
+        before = [y for y in zeros if cfg.ins_dominates(y, x) and y is not x]
+        escapes = [y for y in cfg.reach(x, avoid=zeros) if not cs.in_region(label, y.blk)]
+        spoiled = [y for y in others if any(y in cfg.reach(z) for z in zeros)]
+        if (not before and escapes) or spoiled:
+            rep.fail('C06.R6', key, where(x), 'a rule after a | action is made variable-length (varlength = true under previous_continued_action) but headcnt is not forced to 0 in the same '
+                     'action: the rule is then classified as fixed trailing context and its yytext adjustment is emitted inside the action shared with the preceding | rules',
+                     replay_input='%%\nabc |\nab/c { return 1; }\n%%\n-- input "abc": yytext must be "abc", not "a"')
+        else:
+            rep.ok('C06.R6', 'parse.y:%s varlength forced by previous_continued_action, headcnt = 0 %s' % (x.line, 'set earlier in the action' if before else 'on every path to the end of the action'))
+    if n == 0: rep.broken('C06.R6: no grammar action sets varlength under previous_continued_action')
+    return n
+
 # ---------------------------------------------------------------- R2 (scanner variants)
 
 ALLOWED_WRITERS = {
@@ -337,6 +372,7 @@ def run(ctx):
     rep = ctx.rep
     n1 = r1(ctx)
     n3 = r3(ctx)
+    r6(ctx)
     vs = ctx.variants()
     rep.require(len(vs) >= 100, 'only %d scanner variants compiled to IR' % len(vs))
     n2 = 0; used = 0; backs = set()
@@ -350,6 +386,7 @@ def run(ctx):
     rep.floor('C06.R1', 4, "two productions, bol_needed, ntod's one read of scbol[]")
     rep.floor('C06.R2', 1200, '>=17 rule arms + yyinput + flush + scan_buffer in each of >=60 variants with ^ rules')
     rep.floor('C06.R3', 1, "the re '$' production")
+    rep.floor('C06.R6', 2, "the productions 're2 re' and re '$' force varlength after a | action")
     rep.undecided += ['the split between head and trailing context of a match (value-level: headcnt/trailcnt arithmetic and the DFA)',
                       'competition between anchored and unanchored rules (C01)',
                       'user code that sets the flag through yysetbol()/yy_set_bol()',
